@@ -175,7 +175,7 @@ def build_object(spec):
     if kind == "mesh":
         return mesh
     nv = spec["nvdim"]
-    arr = np.array(spec["data"], dtype=float).reshape((*mesh.n, nv))
+    arr = np.array(spec["data"], dtype=float).reshape((*mesh.n, nv)) * 2.0 ** spec.get("vexp", 0)
     valid = np.array(spec["valid"], dtype=bool).reshape(tuple(mesh.n))
     kw = {}
     if spec.get("vdims"):
@@ -221,6 +221,7 @@ def gen_object_spec(rng, kind, ndim=None, with_subs=True, units=True):
         ncell = int(np.prod(ms["n"]))
         spec["nvdim"] = nv
         spec["data"] = [rng.randint(-9, 9) for _ in range(ncell * nv)]
+        spec["vexp"] = rng.choice([0, 0, 0, -3, -30, -45, -60, 40])      # values = ints * 2**vexp: magnitudes 1e-18 ... 1e13, still exact
         spec["valid"] = [rng.random() < 0.8 for _ in range(ncell)]
         spec["unit"] = rng.choice([None, "A/m"])
         dims = ms["dims"] or (["x", "y", "z"][:nd] if nd <= 3 else [f"x{i}" for i in range(nd)])
@@ -261,15 +262,18 @@ def gen_op(rng, spec, allow_bad=True, far=True, rot_ref_small=False):
         c = rng.random()
         if c < 0.4:
             return None
+        if c < 0.48:
+            return [0.0] * nd                      # the origin itself (a falsy number when passed as a bare scalar in 1-d)
         if far and c > 0.85:
             return [float(rng.choice([-1, 1]) * 2 ** 20 + rng.randint(-8, 8)) for _ in range(nd)]
         return [float(Fraction(rng.randint(-64, 64), 4)) for _ in range(nd)]
 
+    form = rng.choice(["list", "list", "tuple", "ndarray", "ndarray", "scalar" if nd == 1 else "tuple", "intlist"])
     if t == "translate":
         v = [float(Fraction(rng.randint(-80, 80), 8)) for _ in range(nd)]
         if allow_bad and rng.random() < 0.08:
             v = v + [1.0]
-        return dict(t="translate", v=v, inplace=inplace)
+        return dict(t="translate", v=v, inplace=inplace, form=form)
     if t == "scale":
         choices = [2, 0.5, -1, -2, 4, 0.25, 3, -0.5, 1, 8]
         if spec.get("subs"):
@@ -285,7 +289,7 @@ def gen_op(rng, spec, allow_bad=True, far=True, rot_ref_small=False):
         r = ref()
         if allow_bad and r is not None and rng.random() < 0.05:
             r = r + [0.0]
-        return dict(t="scale", f=f, ref=r, inplace=inplace)
+        return dict(t="scale", f=f, ref=r, inplace=inplace, form=form)
     a1, a2 = rng.sample(dims, 2)
     if allow_bad and rng.random() < 0.06:
         a2 = a1
@@ -294,25 +298,72 @@ def gen_op(rng, spec, allow_bad=True, far=True, rot_ref_small=False):
     r = ref()
     if rot_ref_small and r is not None:
         r = [float(Fraction(rng.randint(-64, 64), 4)) for _ in range(nd)]
-    return dict(t="rotate90", ax1=a1, ax2=a2, k=rng.randint(-6, 6), ref=r, inplace=inplace)
+    op = dict(t="rotate90", ax1=a1, ax2=a2, k=rng.randint(-6, 6), ref=r, inplace=inplace, form=form)
+    if allow_bad and rng.random() < 0.08:
+        # arguments only the innermost call refuses: they must be refused in both forms with nothing changed
+        op["badarg"] = rng.choice(["k_float", "k_half", "ref_len", "ref_str", "ref_scalar"])
+    return op
+
+
+def _as_form(x, form):
+    """the same numbers in the form the caller would pass them: list / tuple / float ndarray / bare scalar (1-d) / ints"""
+    if x is None or not isinstance(x, list):
+        return x
+    if form == "tuple":
+        return tuple(x)
+    if form == "ndarray":
+        return np.array(x, dtype=float)
+    if form == "scalar" and len(x) == 1:
+        return x[0] if not float(x[0]).is_integer() else (int(x[0]) if x[0] == 0 else x[0])
+    if form == "intlist" and all(float(v).is_integer() for v in x):
+        return [int(v) for v in x]
+    return list(x)
+
+
+ARG_CHANGED = []      # filled by apply_op when a call changed an array that was handed to it as an argument
 
 
 def apply_op(o, op, inplace=None):
     """call the real code; returns the returned object (raises on rejection)"""
     ip = op["inplace"] if inplace is None else inplace
+    form = op.get("form", "list")
     if isinstance(o, df.Field) and op["t"] in ("translate", "scale"):
         # fields have no translate/scale of their own: the step is taken on the field's mesh, in place
         apply_op(o.mesh, op, inplace=True)
         return o
-    if op["t"] == "translate":
-        v = op["v"]
-        return o.translate(v if len(v) > 1 or not isinstance(o, df.Region) else v, inplace=ip)
-    if op["t"] == "scale":
-        return o.scale(op["f"], reference_point=op["ref"], inplace=ip)
-    return o.rotate90(op["ax1"], op["ax2"], k=op["k"], reference_point=op["ref"], inplace=ip)
+    args = {}
+    try:
+        if op["t"] == "translate":
+            args["v"] = _as_form(op["v"], form)
+            return o.translate(args["v"], inplace=ip)
+        if op["t"] == "scale":
+            args["f"], args["ref"] = _as_form(op["f"], form), _as_form(op["ref"], form)
+            return o.scale(args["f"], reference_point=args["ref"], inplace=ip)
+        k, ref = op["k"], _as_form(op["ref"], form)
+        bad = op.get("badarg")
+        if bad == "k_float":
+            k = float(k)
+        elif bad == "k_half":
+            k = k + 0.5
+        elif bad == "ref_len":
+            ref = list(op["ref"] or [0.0] * len(region_of(o).pmin)) + [1.0]
+        elif bad == "ref_str":
+            ref = ["a"] * len(region_of(o).pmin)
+        elif bad == "ref_scalar" and len(region_of(o).pmin) > 1:
+            ref = 1.5
+        args["ref"] = ref
+        return o.rotate90(op["ax1"], op["ax2"], k=k, reference_point=ref, inplace=ip)
+    finally:
+        for key, a in args.items():
+            if isinstance(a, np.ndarray) and isinstance(op.get("ref" if key == "ref" else key), list):
+                want = op["ref" if key == "ref" else key]
+                if a.shape != (len(want),) or any(float(x) != float(y) for x, y in zip(a, want)):
+                    ARG_CHANGED.append(f"{op['t']}: the array passed as {key} was changed by the call: {want} -> {a.tolist()}")
 
 
 def op_json(op):
+    if op.get("badarg") and not (op["badarg"] == "ref_scalar" and op.get("_nd", 2) == 1):
+        return dict(t="translate", v=[], inplace=bool(op["inplace"]))     # refused by the model as well (wrong length)
     j = dict(t=op["t"], inplace=bool(op["inplace"]))
     if op["t"] == "translate":
         j["v"] = Qs(op["v"])
